@@ -167,6 +167,15 @@ def _shortcut_signature(ctx: Ctx, R: str, f: FuncInfo) -> tp.Set[tp.Tuple[str, t
             else:
                 ok = ('intersection' in true and ('array-empty' in true or 'other-empty' in true)) or {'difference', 'array-empty'} <= true \
                     or ('equal' in true and 'difference' in true and 'unique' in true)
+            # the equal-operands shortcut is what keeps the order of identical operands: it may be conditioned on uniqueness, equal size and
+            # element-wise equality only — any further requirement (equal dtype, ...) makes identical operands lose their order when it fails
+            if 'equal' in true and kind in ('array', 'empty'):
+                allowed_extra = ('len(array) == len(other)', 'array.shape == other.shape', 'isinstance(array == other, np.ndarray)', 'isinstance(array == other, BOOL_TYPES)',
+                                 'array.ndim == 2 and other.ndim == 2', 'array.ndim == 2', 'other.ndim == 2')
+                extra = sorted(k for k, val in facts.items() if val and k not in _VOCAB and k not in allowed_extra and not k.startswith('~'))
+                key2 = f'{f.name}:equal-shortcut-conditions@{"+".join(sorted(true))}'
+                (ctx.ok if not extra else ctx.bad)(R, f, node, 'the equal-operands shortcut requires only uniqueness, equal size and element-wise equality' if not extra else
+                                                   f'the equal-operands shortcut additionally requires {extra[:3]}: identical operands for which that fails are sorted instead of keeping their order', key=key2)
             key = f'{f.name}:return-{kind}@{"+".join(sorted(true))}'
             (ctx.ok if ok else ctx.bad)(R, f, node, f'returns {kind} under {sorted(true)}' if ok else
                                         f'returns {"an operand unchanged (" + kind + ")" if kind != "empty" else "an empty array"} under {sorted(true)} (not {sorted(false)}): '
